@@ -145,6 +145,25 @@ def generate(rng, tier, focus):
         for who, (pos, pp) in enumerate([(p1, first), (p2, ["ref", 0]), (p3, ["ref", 0])]):
             solo = emits[:pos] + [sub(0, pp)] + emits[pos:]
             cases.append((scn(subjects=[["subject"]], handles=1, script_=solo, defs=[pipe]), {"k": "solitary", "g": g, "role": "solo", "who": who}))
+    # (C'') two-input operators over two hot subjects: the first subscription is cut (unsubscribe) with state pending - a value
+    #      waiting in sample's slot, half a pair in zip, an open gate - and the second subscription starts afterwards
+    for _ in range(1800 if thorough else 300):
+        g = group()
+        nm = rng.choice(["sample", "sample", "sample", "zip", "combine_latest", "skip_until", "take_until", "amb", "merge", "switch_on_next", "sequence_equal"])
+        pipe = scen.multi_op(rng, nm, ["hot", 0], [["hot", 1]])
+        if rng.random() < 0.3:
+            pipe = scen.rand_chain(rng, pipe, 1, names=["map", "filter", "scan", "skip", "take", "distinct_until_changed"])
+        E = [["emit", rng.randrange(2), rng.choice([n(1), n(2), n(3), n(2)])] for _ in range(rng.randrange(3, 9))]
+        p1 = rng.randrange(0, len(E) - 1)
+        p2 = rng.randrange(p1 + 1, len(E) + 1)
+        p3 = rng.randrange(p2, len(E) + 1)
+        cut = [["unsub", 0]] if rng.random() < 0.8 else []
+        full = E[:p1] + [sub(0, ["ref", 0])] + E[p1:p2] + cut + E[p2:p3] + [sub(1, ["ref", 0])] + E[p3:]
+        solo0 = E[:p1] + [sub(0, ["ref", 0])] + E[p1:p2] + cut + E[p2:]
+        solo1 = E[:p3] + [sub(0, ["ref", 0])] + E[p3:]
+        cases.append((scn(subjects=[["subject"], ["subject"]], handles=2, script_=full, defs=[pipe]), {"k": "hot2-cut", "g": g, "role": "combined", "n": 2}))
+        cases.append((scn(subjects=[["subject"], ["subject"]], handles=1, script_=solo0, defs=[pipe]), {"k": "solitary", "g": g, "role": "solo", "who": 0}))
+        cases.append((scn(subjects=[["subject"], ["subject"]], handles=1, script_=solo1, defs=[pipe]), {"k": "solitary", "g": g, "role": "solo", "who": 1}))
     # (D) every operator under retry: the failed attempt must leave nothing behind
     for _ in range(2500 if thorough else 420):
         g = group()
